@@ -1093,7 +1093,7 @@ func RunLife(args []string) int {
 		defer func() { fmt.Printf("TRACE events=%d\n", tr.Close()) }()
 	}
 	start := time.Now()
-	nprob := 0
+	nprob, failed := 0, 0
 	keys := map[string]bool{}
 	for _, sc := range list {
 		if (*only >= 0 && sc.ID != *only) || sc.ID < *from {
@@ -1119,6 +1119,15 @@ func RunLife(args []string) int {
 		}
 		b, _ := json.Marshal(res)
 		fmt.Println("RESULT " + string(b))
+		if len(res.Problems) > 0 {
+			failed++
+		}
+		if failed >= 8 {
+			// enough evidence: every further failing scenario costs its deadline
+			b, _ := json.Marshal(map[string]interface{}{"scenarios": len(keys), "stopped_at": sc.ID, "problems": nprob, "qcap": qcap, "wall_s": time.Since(start).Seconds()})
+			fmt.Println("SUMMARY " + string(b))
+			return 1
+		}
 		if len(res.Problems) > 0 {
 			// a stuck scenario may leave blocked goroutines behind; they must not be
 			// charged to the next one: wait for them or mark the run as tainted
